@@ -328,6 +328,12 @@ def gen_engine():
                     wb[1], ast.If) and len(wb[1].body) == 1 and _same(wb[1].body[0], "queue.put(successor)") and not wb[1].orelse:
                 flags["decUnderLock"] = True
                 ready_cond = wb[1].test
+        if ready_cond is None:
+            # the zero test is somewhere else in the multi-parent branch (e.g. outside the lock): still translate it
+            for n in ast.walk(ast.Module(body=br.orelse, type_ignores=[])):
+                if isinstance(n, ast.If) and len(n.body) == 1 and _same(n.body[0], "queue.put(successor)"):
+                    ready_cond = n.test
+                    break
     # no other put / queue use in process_node
     puts = [n for n in ast.walk(pn) if isinstance(n, ast.Call) and _same(n.func, "queue.put")]
     flags["exactlyTwoPutSites"] = len(puts) == 2
